@@ -85,7 +85,7 @@ def render(word, layout="space", raw=None):
     for i, (kind, text) in enumerate(toks):
         if layout == "upper" and kind in ("id", "tag"):
             text = _flip(text)
-        b = text.encode("utf-8")
+        b = text.encode("utf-8", "surrogateescape")  # (U+DC80..U+DCFF in a symbol stand for the raw octets 0x80..0xFF)
         if kind == "ml" and layout == "crlf":
             b = b.replace(b"\n", b"\r\n")
         if kind == "glue" and sep_pending:
